@@ -145,6 +145,9 @@ class Engine:
                     # payoff -> [pl, plm], dp = pl - plm // pl: fine process, plm: coarse process
 
             def simulating_one_path(it):
+                # the variates of this path are drawn in the worker: the pre-drawn ones belong to the parent process and
+                # every task would otherwise start from the same copy of them
+                coupling_process.pre_computation(mc_paths=1, product=product)
                 return it, simulation_path()
 
             def initializer():
